@@ -107,12 +107,6 @@ theorem tyOf_ok {spec : Spec} (hc : CompNamesOk spec) {s : Schema} {t : Ty} (h :
 
 def ParamGood (p : Param) : Prop := inNameDomain p.name = true ∧ TyOk p.ty
 
-/-- the (resolved) parameter's name is in the name domain -/
-def paramNameOk (spec : Spec) (p : ParamRef) : Bool :=
-  match resolveParam spec p with
-  | .ok q => inNameDomain q.name
-  | .error _ => true
-
 theorem extractParam_good {spec : Spec} (hc : CompNamesOk spec) {pr : ParamRef} {q : Param}
     (h : extractParam spec pr = .ok q) (hn : paramNameOk spec pr = true) : ParamGood q := by
   unfold extractParam at h
@@ -209,17 +203,6 @@ theorem target_of_resolve {spec : Spec} {r : SRef} {s : Schema} (h : resolve spe
   | ref t =>
     obtain ⟨n, hp, hl⟩ := resolve_ref_inv h
     simp only [target, hp, hl]
-
-/-- the names of the body's members are in the name domain -/
-def bodyNamesOk (spec : Spec) : Option OaBody → Bool
-  | none => true
-  | some b =>
-    match jsonOf spec b with
-    | some (some r) =>
-      (match target spec r with
-       | some body => (allProps spec body).all (fun nr => inNameDomain nr.1)
-       | none => true)
-    | _ => true
 
 theorem body_literal_domain : inNameDomain cs!"body" = true := by decide
 
@@ -342,11 +325,6 @@ theorem opNames_ok {n : Text} (h1 : n.all (fun c => isAlnum c || isDelim c) = tr
 
 /-! ### every extracted operation meets the request writer's obligations -/
 
-/-- the additional conditions on names: input names of the name domain, well-formed path templates -/
-def opNamesOk (spec : Spec) (item : OaPath) (op : OaOperation) : Bool :=
-  op.params.all (paramNameOk spec) && item.params.all (paramNameOk spec) && bodyNamesOk spec op.body &&
-  templateOk (item.template.length + 1) item.template
-
 theorem sortParams_mem {ps : List Param} {x : Param} (h : x ∈ sortParams ps) : x ∈ ps :=
   (C05_sort_perm ps).mem_iff.mp h
 
@@ -410,17 +388,6 @@ theorem extractOperation_good {spec : Spec} (hc : CompNamesOk spec) {item : OaPa
                 simp only [Except.ok.injEq] at h; rw [← h]; exact fin hir1 ty hops (tyOf_ok hc hty)
             · simp only [Except.ok.injEq] at h; rw [← h]
               exact fin hir1 _ hops (response_domain hname.1 hname.2)
-
-def opsNamesOk (spec : Spec) (item : OaPath) : List OaOperation → Bool
-  | [] => true
-  | op :: rest => opNamesOk spec item op && opsNamesOk spec item rest
-
-def pathsNamesOk (spec : Spec) : List OaPath → Bool
-  | [] => true
-  | p :: rest => opsNamesOk spec p p.ops && pathsNamesOk spec rest
-
-/-- D with the name conditions the request writer needs -/
-def inD2 (spec : Spec) : Bool := inD spec && pathsNamesOk spec spec.paths
 
 theorem extractOps_good {spec : Spec} (hc : CompNamesOk spec) {item : OaPath} : ∀ (ops : List OaOperation) (hir hir' : HirSpec),
     extractOps spec item ops hir = .ok hir' → opsOk spec item ops = true → opsNamesOk spec item ops = true →
